@@ -165,7 +165,7 @@ theorem OpCore.bf_same {env : Env} {D : Nat → Prop} {a b : State} {op : Nat} {
     (hnew : ∀ c x, a.nodes.size ≤ c → c < b.nodes.size → x ∈ kidsX b.experts (b.nodeD c).kind → ¬ Priv env pr x) :
     OpCore env b op pr := by
   have B' : BF (fun _ => False) a b := by
-    refine ⟨B.grow, B.kind, B.top, fun e er he => ?_⟩
+    refine ⟨B.grow, B.kind, B.top, fun e er he => ?_, B.stamp⟩
     obtain ⟨er', he', k2, k3, -, k5⟩ := B.xrec e er he
     exact ⟨er', he', k2, k3, fun _ => hch e er er' he he', k5⟩
   refine h.bf_gen B' F (fun _ _ _ hd => hd.elim) (fun x hx h0 => by rw [hobs x hx]; exact h0) ?_
